@@ -394,6 +394,8 @@ class SymBool:
                         "use the `~` operator or the logical_not function instead.")
     def as_i64(self):
         return SymI64(z3.If(self.e, z3.BitVecVal(1, 64), z3.BitVecVal(0, 64)))
+    def any(self): return self
+    def all(self): return self
     def __add__(self, o):
         if isinstance(o, (SymBool, bool)) and not isinstance(o, int):
             return self | o
@@ -592,6 +594,14 @@ class SymF64:
     def __repr__(self): return f"{type(self).__name__}({z3.simplify(self.e)})"
     def item(self): return self
     def is_integer(self): return float(self).is_integer()
+    def astype(self, t):
+        if t is int or getattr(t, "__name__", "") == "int64":
+            c = ctx()
+            if c.branch(z3.Or(z3.fpIsNaN(self.e), z3.fpIsInf(self.e))):
+                raise ValueError("cannot convert float NaN to integer")
+            return SymI64(z3.fpToSBV(z3.RTZ(), self.e, z3.BitVecSort(64)))
+        if t is float: return self
+        raise ModelGap(f"scalar astype({t})")
 
 class SymPyFloat(SymF64):
     __slots__ = ()
